@@ -132,7 +132,7 @@ LkInit == [
     \* U0 timers: cycles since the last link command word we sent / since the last reception
     ks      |-> 0,
     rs      |-> 0,
-    rarmed  |-> FALSE,    \* rs is meaningful (no ambiguous reception since it restarted)
+    rarmed  |-> FALSE,    \* rs is meaningful (the recovery timer runs: the link is up)
     ts1Req  |-> 0,        \* > 0: cycles since eight TS1 sets arrived in U0 (recovery requested by the partner)
     busy    |-> "none",   \* unit on the wire: none | lc | hp | dp
     \* A link command / header packet that was committed when the link left U0 and lost the wire to the training
@@ -185,7 +185,7 @@ DownJudge(k) ==
     IF ~k.up THEN "down_while_down"
     ELSE IF RecentRst(k) \/ k.ts1Req > 0 THEN "ok"
     ELSE IF t_recovOwed \/ r_gRecov THEN "ok"                 \* lost header / credit synchronisation [7.2.4.1.5]
-    ELSE IF ~k.rarmed THEN "ok"                               \* (timer restarted by an ambiguous reception)
+    ELSE IF ~k.rarmed THEN "ok"
     ELSE IF k.rs >= R THEN "ok"                               \* 1 ms without reception
     ELSE "link_down_without_cause"
 
@@ -301,8 +301,12 @@ ApplyK(k, r) ==
        [] r.e = "pidle" -> lk' = [k EXCEPT !.pIdling = TRUE] /\ UNCHANGED <<rxv, txv, todo>>
        [] r.e = "hdr"   ->
             /\ Rx!HdrArrive(r.kind, r.d, r.c)
-            /\ lk' = IF r.kind = "good" /\ r.d = 0 THEN [k EXCEPT !.rs = 0, !.rarmed = TRUE]
-                     ELSE [k EXCEPT !.rarmed = FALSE]
+            \* C44 "1 ms without any received link command or header packet": a header packet is received when it
+            \* arrives intact (both CRCs good) with the number the receiver expects -- whether or not the flow control
+            \* then keeps it (it is discarded while the receiver ignores packets between its LBAD and the partner's
+            \* LRTY: the link is alive all the same).  A corrupted header, or one with an unexpected number, is not a
+            \* reception: the time keeps running from the last intact one.
+            /\ lk' = IF r.kind = "good" /\ r.d = 0 THEN [k EXCEPT !.rs = 0, !.rarmed = TRUE] ELSE k
             /\ UNCHANGED <<txv, todo>>
        [] r.e = "lc"    ->
             /\ lk' = IF r.valid THEN [k EXCEPT !.rs = 0, !.rarmed = TRUE] ELSE k
